@@ -60,6 +60,7 @@ from ufl.constantvalue import ScalarValue, Zero, as_ufl
 from ufl.core.multiindex import FixedIndex, MultiIndex
 from ufl.corealg.dag_traverser import DAGTraverser
 from ufl.corealg.map_dag import map_expr_dag
+from ufl.corealg.traversal import unique_pre_traversal
 from ufl.domain import extract_unique_domain
 
 
@@ -159,6 +160,9 @@ class IndexSumSimplifier(DAGTraverser):
             for f1, f2 in ((with_k[0], with_k[1]), (with_k[1], with_k[0])):
                 if isinstance(f1, Indexed) and isinstance(f2, IndexSum):
                     summand, (j,) = f2.ufl_operands
+                    if j.count() in f1.ufl_free_indices:
+                        # Moving f1 under the sum over j would capture its free index j
+                        continue
                     inner = self._cancel(_flatten_product(summand, [f1]), k)
                     if inner is not None:
                         return _make_product(rest + [self._index_sum(inner, j)])
@@ -254,7 +258,14 @@ class IdentityEliminator(IndexSumSimplifier):
                 others = with_k[:i] + with_k[i + 1 :] + rest
                 if not others:
                     return None
-                return self._substitute(_make_product(others), k, a)
+                product = _make_product(others)
+                if any(
+                    isinstance(e, IndexSum) and e.ufl_operands[1][0] == a
+                    for e in unique_pre_traversal(product)
+                ):
+                    # Substituting a for k would capture it in an inner sum over a
+                    return None
+                return self._substitute(product, k, a)
         return None
 
     # Work around singledispatchmethod inheritance issue;
